@@ -122,7 +122,8 @@ class Case:
                 if sp is None:
                     continue
                 c = h.conn_of(sp)
-                ready_at_stop[i] = c is not None and c.state in pm.PEER_READY_STATES
+                # ground truth from the history (which exchange took place on it), not the library's state field
+                ready_at_stop[i] = c is not None and spec["conns"][i][0] in ("ready", "ready_idle_soon", "waiting_dwa")
             seen = [len(sp.frames) if sp is not None else 0 for sp in self.sp]
             result = {}
 
